@@ -94,6 +94,11 @@ def c04(rec, state=None):
                        any(b in apps and b in moved[s2id] and apps[b]['aff'] == ap['aff'] for b in s2['apps'])
                        for s2id, s2 in servers.items()):
                     state.setdefault('tainted_topo', set()).add((node, ap['aff']))
+                # an instance below this node was put there by the loader's restore (Server.put / Server.restore check the
+                # server's own limit only; the histories C04 quantifies over are those of the scheduler's own puts)
+                restored = state.get('restored', set())
+                if level != 0 and any(b in restored for b in under):
+                    continue
                 sig = 'affinity-limit-exceeded'
                 if level != 0 and (node, ap['aff']) in tainted:
                     sig = 'affinity-limit-exceeded-above-server-level-after-direct-put'
@@ -362,6 +367,8 @@ def run_oracle(pid, trace):
                 state.setdefault('moved_apps', {}).pop(args[1], None)
             elif args and args[0] == 'MoveServer':
                 state.setdefault('moved', set()).add(args[1])
+            elif args and args[0] == 'RestoreAt':
+                state.setdefault('restored', set()).add(args[2])
             elif args and args[0] == 'AddApp' and isinstance(args[3], dict):
                 # the first submission of a name carries its real attributes (later ones only re-assign it)
                 state.setdefault('lease', {}).setdefault(args[3]['name'], args[3].get('lease', 0))
@@ -373,6 +380,8 @@ def run_oracle(pid, trace):
             continue
         fn = ORACLES[pid]
         res = fn(rec, state) if fn in (c03, c04, c08) else fn(rec)
+        # an instance the loader restored stays marked until the scheduler itself takes it off its server
+        state['restored'] = {a for a in state.get('restored', ()) if rec['after']['apps'].get(a, {}).get('server') is not None}
         for sig, what in res:
             out.append((sig, 'at op %d: %s' % (i, what)))
     return out
